@@ -16,17 +16,24 @@ def cfg(chk, name, maxstmts, provider, emit=False):
                          invariants=["UnconsumedEndAtIntermediate", "ChainsCompose", "EmitCase"])
 
 
-def render(script):
+def render(script, style="plain"):
     out = []
     for k, s in enumerate(script):
         t, f = TARGETS[k], s["f"]
-        if s["k"] == "mk":
+        if s["k"] == "mk" and style == "derived":
+            # the same flows through a derived table that every statement calls q (a statement-local name re-used across statements)
+            inner = ", ".join(sorted({i["c"] for i in s["items"]}))
+            its = ", ".join("q." + i["c"] if i["c"] == i["al"] else "q.%s as %s" % (i["c"], i["al"]) for i in s["items"])
+            out.append("insert into %s select %s from (select %s from %s) q" % (t, its, inner, f))
+        elif s["k"] == "mk":
             its = ", ".join(i["c"] if i["c"] == i["al"] else "%s as %s" % (i["c"], i["al"]) for i in s["items"])
             out.append("insert into %s select %s from %s" % (t, its, f))
         elif s["k"] == "expr":
             out.append("insert into %s select a + b as s from %s" % (t, f))
         elif s["k"] == "star":
             out.append("insert into %s select * from %s" % (t, f))
+        elif s["k"] == "unq2":
+            out.append("insert into %s select %s as x2, %s as y2 from %s join oth on 1 = 1" % (t, s["c"], s["c"], f))
         else:
             out.append("insert into %s select %s from %s join oth on 1 = 1" % (t, s["c"], f))
     return ";\n".join(out)
@@ -53,7 +60,7 @@ def _chunk(cases):
         other = [x for x in cands if x != "oth"]
         return ["?" + "|".join(other + ["oth"]), c.raw_name]
     for c in cases:
-        sql = render(c["script"])
+        sql = render(c["script"], c.get("style", "plain"))
         o = {"sql": sql, "exc": "none", "pairs": []}
         try:
             kw = {"metadata_provider": DummyMetaDataProvider({"zz.unrelated": ["q"]})} if c["provider"] else {}
@@ -88,6 +95,8 @@ def run(chk):
                          coverage=False, simulate="num=150", depth=5, seed=chk.seed, timeout=3000)
             cs += [c for c in g4.cases("CASE") if len(c["script"]) == 4]
         cases += cs
+        # the same scripts once more with every explicit statement written through a derived table called q
+        cases += [dict(c, style="derived") for c in cs if any(s["k"] == "mk" for s in c["script"])][::3 if quick else 1]
     chk.require_actions(["Next"]) if False else None
     pool = mp.Pool(16)
     try:
